@@ -33,11 +33,29 @@ def record_all(tier, seed):
         except Exception as ex:  # noqa
             return ['EXC:' + type(ex).__name__]
 
+    returned = []
+
     def call(f, *a, **k):
         try:
-            return f(*a, **k)
+            r = f(*a, **k)
         except Exception as ex:  # noqa
             return ex
+        if isinstance(r, (set, list)):
+            returned.append(r)          # a returned collection belongs to the caller: it is emptied / polluted after it was recorded
+        return r
+
+    def spoil_returned():
+        for i, r in enumerate(returned):
+            try:
+                if i % 2:
+                    r.clear()
+                elif isinstance(r, set):
+                    r.symmetric_difference_update({cats[i % len(cats)], cats[(i * 7 + 3) % len(cats)]})
+                else:
+                    r.append(cats[i % len(cats)])
+            except Exception:  # noqa
+                pass
+        returned.clear()
 
     rec('enum', res=names(cats))
     r = call(C.all)
@@ -63,6 +81,18 @@ def record_all(tier, seed):
         for c in cats:
             r = call(C.is_child, child=c, parent=p)
             rec('is_child', a=p.name, b=c.name, resb=(r is True), res=[] if isinstance(r, bool) else ['NOT-BOOL'])
+
+    # what the API handed out is now modified by the caller; the answers must stay those of the documented tree
+    spoil_returned()
+    for p in cats:
+        for op, f in (('children', C.children), ('nodes', C.nodes), ('leaves', C.leaves)):
+            r = call(f, p)
+            rec(op, a=p.name, res=['EXC:' + type(r).__name__] if isinstance(r, Exception) else names(r))
+        for c in rnd.sample(cats, 12):
+            r = call(C.is_child, child=c, parent=p)
+            rec('is_child', a=p.name, b=c.name, resb=(r is True), res=[] if isinstance(r, bool) else ['NOT-BOOL'])
+    r = call(C.all)
+    rec('all', res=['EXC'] if isinstance(r, Exception) else names(r))
 
     forms = [lambda s: set(s), lambda s: list(s), lambda s: tuple(s)]
 
@@ -97,8 +127,11 @@ def record_all(tier, seed):
                     continue
                 k += 1
                 do_valid(inc, exc, form_i=k % 3, form_e=(k // 3) % 3, match_cats=rnd.sample(cats, 1))
-    # random larger sets
-    for _ in range(400 if tier == 'quick' else 4000):
+    # random larger sets (after every collection returned so far was modified by the caller)
+    spoil_returned()
+    for n_ in range(400 if tier == 'quick' else 4000):
+        if n_ % 50 == 49:
+            spoil_returned()
         inc = rnd.sample(cats, rnd.randint(0, 8)) if rnd.random() < 0.85 else None
         exc = rnd.sample(cats, rnd.randint(0, 6)) if rnd.random() < 0.85 else None
         do_valid(inc, exc, form_i=rnd.randrange(3), form_e=rnd.randrange(3), match_cats=rnd.sample(cats, 3))
